@@ -1342,6 +1342,24 @@ def b_sorted(interp, args, kwargs):
             return ListV([K(x) for x in sorted(i.v for i in items)])
         except Exception as e:
             raise py_exc(interp, e)
+    if all(isinstance(x, K) for x in items) and \
+            set(kwargs) <= {'key', 'reverse'}:
+        # sorted(constants, key=f, reverse=c): keys computed by calling f
+        rev = kwargs.get('reverse', K(False))
+        keyf = kwargs.get('key')
+        if isinstance(rev, K):
+            try:
+                ks = [interp.call(keyf, [x]) if keyf is not None and not (
+                    isinstance(keyf, K) and keyf.v is None) else x
+                    for x in items]
+                if all(isinstance(k, K) for k in ks):
+                    order = sorted(range(len(items)), key=lambda i: ks[i].v,
+                                   reverse=bool(rev.v))
+                    return ListV([items[i] for i in order])
+            except AbsRaise:
+                raise
+            except Exception as e:
+                raise py_exc(interp, e)
     return T('call', 'sorted', interp.termify(args[0]))
 
 
